@@ -621,7 +621,7 @@ func C17() *check.Property {
 		Title:    "Bridges to slices, maps and channels are exact and close exactly once",
 		Patterns: CorePatterns,
 		Scope:    []string{ro},
-		Rules:    []check.Rule{ruleCloseOnce(), ruleSendRecovered(), ruleBoundedQueue(), ruleSinkOnComplete(), ruleFromChannel(), ruleMaterializeTable(), ruleCollectWaits(), ruleStateLevel(), ruleTerminalPropagation(), ruleDeadEmission(), ruleLateEmission(), ruleGoLateRegistration(), ruleCtxDoneTerminates(), ruleTerminalReleaseAgreement()},
+		Rules:    []check.Rule{ruleCloseOnce(), ruleSendRecovered(), ruleBoundedQueue(), ruleSinkOnComplete(), ruleFromChannel(), ruleMaterializeTable(), ruleCollectWaits(), ruleStateLevel(), ruleTerminalPropagation(), ruleDeadEmission(), ruleLateEmission(), ruleGoLateRegistration(), ruleCtxDoneTerminates(), ruleTerminalReleaseAgreement(), ruleCtxProvenance(), ruleSlotCtxArgument(), ruleCtxPairing(), ruleTeardownAllRun()},
 		Explanation: "Static typestate/table checks of the bridges. CLOSE-ONCE: each channel created by an operator is closed either from a single teardown-only site or exclusively inside one sync.Once.Do; SEND-RECOVERED: sends on a channel the operator also closes " +
 			"happen only inside observer slots, where a send-on-closed panic is recovered; BOUNDED-QUEUE: ToChannel/detachOn queue all three notification kinds, terminal ones before the close, and the teardown closes too; SINK-ON-COMPLETE: ToSlice/ToMap emit once, at completion, " +
 			"the container their next slot fills (keyed store: last write wins); FROM-CHANNEL: two-value receive, complete-and-return on close, stop channel; MATERIALIZE-TABLE: the notification constructors, the writers (Materialize, ToChannel, detachOn) and the readers " +
@@ -629,6 +629,6 @@ func C17() *check.Property {
 		NotDecided:  "the exact contents of slices/maps; consumers that stop reading; the 1 ms sleep in ToChannel that orders the hand-out of the channel against an empty source's completion (a schedule-dependent ordering the analysis sees but cannot decide without executing; reported in DESIGN.md only).",
 		Assumptions: []string{"Go channel semantics", "teardowns run once (C03)", "observer slots recover panics (C07)"},
 		Floors:      map[string]int{"channels": 6, "sends_on_closable_channels": 6, "notification_constructors": 3, "from_channel": 1},
-		Controls:    map[string]string{"zz_verif_controls_c17.go": roControl(controlsC17), "zz_verif_controls_c12.go": roControl(controlsC12), "zz_verif_controls_c05.go": roControl(controlsC05), "zz_verif_controls_c04.go": roControl(controlsC04), "zz_verif_controls_termrel.go": roControl(controlsTerminalRelease)},
+		Controls:    map[string]string{"zz_verif_controls_c17.go": roControl(controlsC17), "zz_verif_controls_c12.go": roControl(controlsC12), "zz_verif_controls_c05.go": roControl(controlsC05), "zz_verif_controls_c04.go": roControl(controlsC04), "zz_verif_controls_termrel.go": roControl(controlsTerminalRelease), "zz_verif_controls_c09.go": roControl(controlsC09 + controlsC09b), "zz_verif_controls_c03.go": roControl(controlsC03 + controlsC03b)},
 	}
 }
